@@ -79,3 +79,20 @@ MUTANTS += [
     ("msdcc2: user name lower-cased after it is encoded", "passlib/handlers/windows.py", "        user = to_unicode(user, \"utf-8\", param=\"user\").lower().encode(\"utf-16-le\")\n        tmp = md4(md4(secret).digest() + user).digest()", "        user = to_unicode(user, \"utf-8\", param=\"user\").encode(\"utf-16-le\").lower()\n        tmp = md4(md4(secret).digest() + user).digest()", "refute", "msdcc2"),
     ("msdcc2: 10239 rounds", "passlib/handlers/windows.py", "pbkdf2_hmac(\"sha1\", tmp, user, 10240, 16)", "pbkdf2_hmac(\"sha1\", tmp, user, 10239, 16)", "refute", "msdcc2"),
 ]
+
+from contracts import kdf_family as _kdf  # noqa: E402
+
+CONTRACTS += _kdf.contracts("C02")
+MUTANTS += [
+    ("pbkdf2_<digest>: key length of the neighbouring digest", "passlib/handlers/pbkdf2.py", "            self._digest, secret, self.salt, self.rounds, self.checksum_size\n", "            self._digest, secret, self.salt, self.rounds, self.checksum_size + 0 * len(secret)\n", "hold", "Pbkdf2DigestHandler"),
+    ("cta_pbkdf2_sha1: one round short", "passlib/handlers/pbkdf2.py", "pbkdf2_hmac(\"sha1\", secret, self.salt, self.rounds, 20)", "pbkdf2_hmac(\"sha1\", secret, self.salt, self.rounds - 1, 20)", "refute", "cta_pbkdf2"),
+    ("atlassian: 1000 rounds", "passlib/handlers/pbkdf2.py", "pbkdf2_hmac(\"sha1\", secret, self.salt, 10000, 32)", "pbkdf2_hmac(\"sha1\", secret, self.salt, 1000, 32)", "refute", "atlassian"),
+    ("grub: key of 32 bytes", "passlib/handlers/pbkdf2.py", "pbkdf2_hmac(\"sha512\", secret, self.salt, self.rounds, 64)", "pbkdf2_hmac(\"sha512\", secret, self.salt, self.rounds, 32)", "refute", "grub"),
+    ("dlitz: bare salt instead of the configuration string", "passlib/handlers/pbkdf2.py", "        salt = self._get_config()\n        result = pbkdf2_hmac", "        salt = self.salt\n        result = pbkdf2_hmac", "refute", "dlitz"),
+    ("django_pbkdf2: key length pinned to 32 for every digest", "passlib/handlers/django.py", "pbkdf2_hmac(self._digest, secret, self.salt, self.rounds)", "pbkdf2_hmac(self._digest, secret, self.salt, self.rounds, 32)", "refute", "django_pbkdf2"),
+]
+MUTANTS += [
+    ("fshp: password and salt in textbook order", "passlib/handlers/fshp.py", "            secret=self.salt,\n            salt=secret,", "            secret=secret,\n            salt=self.salt,", "refute", "fshp"),
+    ("scram: password not normalised", "passlib/handlers/scram.py", "return pbkdf2_hmac(alg, saslprep(password), salt, rounds)", "return pbkdf2_hmac(alg, password, salt, rounds)", "refute", "scram.derive"),
+    ("digest.pbkdf2_hmac: caller's digest spelling handed to hashlib", "passlib/crypto/digest.py", "return hashlib.pbkdf2_hmac(digest_info.name, secret, salt, rounds, keylen)", "return hashlib.pbkdf2_hmac(digest, secret, salt, rounds, keylen)", "refute", "digest.pbkdf2"),
+]
